@@ -166,3 +166,88 @@ def collapse_pars(toks):
             continue
         out.append(t)
     return out
+
+
+class IncLexer(object):
+    """Incremental version of the same rules: categories are looked up at the
+    moment a character is read (so \\catcode / \\makeatletter changes made by the
+    interpreter affect the rest of the input).  next() -> token or None."""
+
+    def __init__(self, text, catfn):
+        lines = text.split('\n')
+        self.lines = [l + '\n' for l in lines[:-1]] + ([lines[-1]] if lines[-1] != '' else [])
+        self.li = 0
+        self.i = 0
+        self.state = 'N'
+        self.cat = catfn
+
+    def _getc(self, i):
+        line = self.lines[self.li]
+        n = len(line)
+        if i >= n:
+            return None
+        ch = line[i]
+        i += 1
+        cat = self.cat
+        while cat(ch) == SUP and i + 1 < n and line[i] == ch:
+            o = ord(line[i + 1])
+            ch = chr(o - 64) if o >= 64 else chr(o + 64)
+            i += 2
+        return ch, cat(ch), i
+
+    def _nextline(self):
+        self.li += 1
+        self.i = 0
+        self.state = 'N'
+
+    def next(self):
+        while self.li < len(self.lines):
+            r = self._getc(self.i)
+            if r is None:
+                self._nextline()
+                continue
+            ch, code, self.i = r
+            if code == ESC:
+                r2 = self._getc(self.i)
+                if r2 is None:
+                    self.state = 'M'
+                    return ('cs', '')
+                ch2, code2, i2 = r2
+                if code2 == LETTER:
+                    name = ch2
+                    self.i = i2
+                    while True:
+                        r3 = self._getc(self.i)
+                        if r3 is None or r3[1] != LETTER:
+                            break
+                        name += r3[0]
+                        self.i = r3[2]
+                    self.state = 'S'
+                    return ('cs', name)
+                self.i = i2
+                self.state = 'S' if code2 == SPACE else 'M'
+                return ('cs', ch2)
+            if code in (BG, EG, MATH, ALIGN, PARAM, SUP, SUB, LETTER, OTHER):
+                self.state = 'M'
+                return (code, ch)
+            if code == ACTIVE:
+                self.state = 'M'
+                return ('active', ch)
+            if code == SPACE:
+                if self.state == 'M':
+                    self.state = 'S'
+                    return (SPACE, ' ')
+                continue
+            if code == EOL:
+                st = self.state
+                self._nextline()
+                if st == 'N':
+                    return ('cs', 'par')
+                if st == 'M':
+                    return (SPACE, ' ')
+                continue
+            if code == COMMENT:
+                self._nextline()
+                continue
+            # ignored / invalid
+        return None
